@@ -774,6 +774,14 @@ func findCallSite(p *packages.Package, body ast.Node, site string) token.Pos {
 		if _, ok := m.(*ast.FuncLit); ok {
 			return false
 		}
+		if ss, ok := m.(*ast.SendStmt); ok && name == "chansend" {
+			// pseudo call site: the k-th channel send statement (arg0 the channel, arg1 the value)
+			n++
+			if n == k {
+				res = ss.Arrow
+			}
+			return true
+		}
 		ce, ok := m.(*ast.CallExpr)
 		if !ok {
 			return true
